@@ -18,7 +18,7 @@ func init() {
 		Doc: "token-kind agreement: kinds tested by canAtom = kinds opening a case of atom; those plus the kinds consumed elsewhere = all declared kinds", Run: par1})
 	register(&Rule{ID: "PAR-2", Props: []string{"C03", "C08"}, Floor: 8,
 		Doc: "consumption typestate: atom consumes on every normal return; back() only on the way to a panic; a panic about a consumed token is preceded by exactly one back()", Run: par2})
-	register(&Rule{ID: "PAR-3", Props: []string{"C08", "C10", "C11", "C01"}, Floor: 4,
+	register(&Rule{ID: "PAR-3", Props: []string{"C08", "C10", "C11", "C01", "C02"}, Floor: 4,
 		Doc: "declared names only: every container given to a matcher comes from a comma-ok lookup (true edge; false edge panics) in the right index keyed by the token text; groups and matchers get the command's own index", Run: par3})
 	register(&Rule{ID: "PAR-4", Props: []string{"C08", "C09"}, Floor: 4,
 		Doc: "no option after `--`: the flag is set only on the `--` path and every option-matcher construction is under its false edge (true edge panics)", Run: par4})
